@@ -70,17 +70,20 @@ TsAffix == <<
     B("99991231T235959Z"), B("99991231T235959-0100"), B("00010101T000000Z"), B("00010101T000000+0100") >>
 
 \* C06: secrets (by length and content) and capacities, dates, regions/services
+AWS4c == <<65, 87, 83, 52>>      \* "AWS4": a secret may begin with the very prefix the derivation prepends
 KeySecretOfLen(n, kind) == [i \in 1..n |-> CASE kind = 1 -> 97 + (i % 26)
                                                [] kind = 2 -> IF i = n THEN 0 ELSE 65 + (i % 26)
-                                               [] kind = 3 -> IF i % 2 = 1 THEN 195 ELSE 169]
-KeyLens == <<0, 1, 5, 36, 39, 40, 41, 44, 60, 61, 96, 97, 100>>
-KeyCaps == <<0, 3, 4, 5, 8, 44, 64, 100>>
+                                               [] kind = 3 -> IF i % 2 = 1 THEN 195 ELSE 169
+                                               [] kind = 4 -> IF i <= 4 THEN AWS4c[i] ELSE 48 + (i % 10)]
+KeyLens == <<0, 1, 4, 5, 36, 39, 40, 41, 44, 60, 61, 96, 97, 100, 251, 252, 253, 296, 297>>
+KeyCaps == <<0, 3, 4, 5, 8, 44, 64, 100, 255, 256, 300>>
 KeyDates == << <<1, 1, 1>>, <<999, 12, 31>>, <<1000, 1, 1>>, <<2000, 2, 29>>, <<2015, 8, 30>>, <<2016, 2, 29>>,
                <<2100, 2, 28>>, <<9999, 12, 31>>, <<2015, 1, 1>>, <<2015, 1, 31>>, <<2015, 2, 1>>, <<2015, 2, 28>>,
                <<2015, 3, 1>>, <<2015, 4, 30>>, <<2015, 9, 9>>, <<2015, 10, 10>>, <<2015, 12, 1>>, <<2015, 12, 31>> >>
 KeyNames == << <<>>, B("us-east-1"), <<195, 169>>, [i \in 1..300 |-> 97 + (i % 26)], B("aws4_request"), B("s3"), B("us/east/1") >>
 KeyChainSecrets == << KeySecretOfLen(40, 1), <<>>, KeySecretOfLen(1, 1), KeySecretOfLen(39, 2), KeySecretOfLen(40, 2),
-                      KeySecretOfLen(40, 3), KeySecretOfLen(20, 1), B("wJalrXUtnFEMI/K7MDENG+bPxRfiCYEXAMPLEKEY") >>
+                      KeySecretOfLen(40, 3), KeySecretOfLen(20, 1), B("wJalrXUtnFEMI/K7MDENG+bPxRfiCYEXAMPLEKEY"),
+                      KeySecretOfLen(40, 4), AWS4c >>
 
 \* C17: also secrets the key type refuses (too long: e.g. a 40-character key with a trailing newline)
 LeakSecrets == KeyChainSecrets \o << B("wJalrXUtnFEMI/K7MDENG+bPxRfiCYEXAMPLEKEY") \o <<10>>,
@@ -114,7 +117,8 @@ Dim(k) ==
     CASE Family = "path_segs"    -> IF k = 1 THEN 2 ELSE IF k <= Bound + 1 THEN Len(PathSigma) ELSE 0
       [] Family = "path_bytes"   -> IF k <= 4 THEN <<256, 5, 3, 2>>[k] ELSE 0
       [] Family = "path_escapes" -> IF k <= 4 THEN <<128, 128, 2, 2>>[k] ELSE 0
-      [] Family = "path_trunc"   -> IF k <= 3 THEN <<128, 5, 2>>[k] ELSE 0
+      [] Family = "path_trunc"   -> IF k <= 3 THEN <<128, 9, 2>>[k] ELSE 0
+      [] Family = "query_trunc"  -> IF k <= 2 THEN <<128, 6>>[k] ELSE 0
       [] Family = "elem_bytes"   -> IF k <= 4 THEN <<256, 5, 2, 2>>[k] ELSE 0
       [] Family = "query_lists"  -> IF k <= Bound THEN 80 ELSE 0
       [] Family = "query_ampamp" -> IF k = 1 THEN 3 ELSE IF k <= Bound + 1 THEN 80 ELSE 0
@@ -129,7 +133,7 @@ Dim(k) ==
       [] Family = "ts_seps"      -> IF k <= 5 THEN <<2, 2, 2, 2, Len(TsZones)>>[k] ELSE 0
       [] Family = "ts_affix"     -> IF k = 1 THEN Len(TsAffix) ELSE 0
       [] Family = "ts_subst"     -> IF k <= 3 THEN <<2, 20, 8>>[k] ELSE 0
-      [] Family = "key_caps"     -> IF k <= 3 THEN <<Len(KeyLens), 3, Len(KeyCaps)>>[k] ELSE 0
+      [] Family = "key_caps"     -> IF k <= 3 THEN <<Len(KeyLens), 4, Len(KeyCaps)>>[k] ELSE 0
       [] Family = "key_chain"    -> IF k <= 4 THEN <<Len(KeyChainSecrets), Len(KeyDates), Len(KeyNames), Len(KeyNames)>>[k] ELSE 0
       [] Family = "hval"         -> IF k <= Bound THEN Len(HvalSigma) ELSE 0
       [] Family = "foldsize"     -> IF k <= 3 THEN <<Len(FoldSizes), Len(FoldPaths), 2>>[k] ELSE 0
@@ -198,7 +202,21 @@ Case ==
                      [] idx[2] = 2 -> SL \o <<37, x>> \o SL \o B("a")
                      [] idx[2] = 3 -> SL \o B("a") \o <<37>>
                      [] idx[2] = 4 -> SL \o <<37>> \o SL
-                     [] idx[2] = 5 -> SL \o B("a") \o SL \o <<37, x>>]
+                     [] idx[2] = 5 -> SL \o B("a") \o SL \o <<37, x>>
+                     \* a broken escape whose would-be hex digits run into a multi-byte character
+                     [] idx[2] = 6 -> SL \o <<37, x, 195, 169>>
+                     [] idx[2] = 7 -> SL \o <<37, 195, 169, x>>
+                     [] idx[2] = 8 -> SL \o <<37, 226, 130, 172>> \o SL \o <<x>>
+                     [] idx[2] = 9 -> SL \o B("a") \o <<37, x, 240, 159, 152, 128>> \o SL \o B("b")]
+      [] Family = "query_trunc" ->
+            LET x == idx[1] - 1 IN
+            [op |-> "query",
+             q |-> CASE idx[2] = 1 -> B("k=") \o <<37, x, 195, 169>>
+                     [] idx[2] = 2 -> <<37, x, 195, 169>> \o B("=v")
+                     [] idx[2] = 3 -> B("k=v") \o <<37, x>>
+                     [] idx[2] = 4 -> B("k=") \o <<37, 195, 169, x>>
+                     [] idx[2] = 5 -> B("a=1&k=") \o <<37, 226, 130, 172, x>> \o B("&b=2")
+                     [] idx[2] = 6 -> B("k") \o <<37>> \o B("=") \o <<x>>]
       [] Family = "elem_bytes" ->
             LET sp == Spelling(idx[1] - 1, idx[2]) IN
             [op |-> "elem", plus |-> Bool(idx[4]), el |-> IF idx[3] = 1 THEN sp ELSE B("x") \o sp \o B("y")]
